@@ -26,17 +26,8 @@ def regen_check(ctx):
 def run(ctx):
     quick = ctx.tier == "quick"
     ctx.build_go()
-    ctx.extract(["tables"])
-    try:
-        ctx.prove("Emerge.Props.C04")
-        if not quick:
-            ctx.leanchecker("Emerge.Props.C04")
-    except Broken as b:
-        ctx.add_broken(b.what, b.detail)
-        ok, out = ctx.lake(["model"])
-        if not ok:
-            ctx.add_broken("model driver no longer builds against the regenerated tables", out[-2000:])
-            return ctx.finish(LEVEL, {"evaluations": 0, "distinct_nontrivial": 0, "samples": []}, [])
+    if not ctx.prepare(["tables"], "Emerge.Props.C04", quick):
+        return ctx.finish(LEVEL, {"evaluations": 0, "distinct_nontrivial": 0, "samples": []}, [])
     same, why = regen_check(ctx)
     if not same:
         ctx.add_violation("regenerating the table file does not reproduce the checked-in file byte for byte",
